@@ -18,10 +18,13 @@ DeBad(r) ==
       desc == Types[r.ty]
       \* documented difference: an f32 target narrows the f64 result (serde_json rejects what does not fit f32)
       f32big == r.ty = "f32" /\ valid /\ d.root.t = "num" /\ Sci(Scan(d.root.lit)) >= 38
-      \* C02 takes precedence over serde_json's laxness: text that is not UTF-8 outside a byte-buffer position may be rejected
-      \* although serde_json, which does not validate the strings it skips, accepts it (r.blobonly: by construction of the
-      \* generator every non-UTF-8 byte of the text is inside a string read into a byte buffer)
-      strictutf8 == ~r.blobonly /\ ~Utf8Valid(r.text) /\ ~x.sonic_ok /\ x.sj_ok
+      \* C02 takes precedence over serde_json's laxness: text that is not grammatical (serde_json does not validate the
+      \* strings it skips or reads as raw bytes: raw control characters), or that is not UTF-8 outside a byte-buffer position,
+      \* may be rejected although serde_json accepts it.  r.blobonly: by construction of the generator every non-UTF-8 byte
+      \* of the text is inside a string read into a byte buffer.  Grammaticality is judged with bytes >= 0x80 replaced by a
+      \* letter (they can only occur inside strings), so that it does not depend on UTF-8 validity.
+      gram == AcceptsLax([i \in 1..Len(r.text) |-> IF r.text[i] >= 128 THEN 97 ELSE r.text[i]])
+      strictutf8 == ~x.sonic_ok /\ x.sj_ok /\ (~gram \/ (~r.blobonly /\ ~Utf8Valid(r.text)))
       differs == x.sonic_ok # x.sj_ok \/ ~x.str_agrees \/ (x.sonic_ok /\ x.sj_ok /\ ~x.equal)
       \* known finding F27: an unpaired surrogate escape in a string read into a byte buffer
       lonesur == r.bytesfam /\ HasSurrogateEscape(r.text) /\ ~x.sonic_ok /\ x.sj_ok
